@@ -28,6 +28,11 @@ def main(tier, seed):
                         timeout=400 if q else 1200, tag="stack:%s" % g, stall_s=200))
     jobs.append(Job("framework.props.capacity", "run_stack", {"heights": [2, 3, 4, 8, 16]}, mode="interp",
                     timeout=400, tag="stack:interp", stall_s=200))
+    # the interpreted engine has its own arithmetic (numpy scalars wrap where numba promotes): the heights next to the
+    # limits of the 8-bit stack pointer are swept under interpretation too
+    for g in ([127, 128], [253, 254]):
+        jobs.append(Job("framework.props.capacity", "run_stack", {"heights": g, "only_calg": "bc"}, mode="interp",
+                        timeout=600 if q else 1500, tag="stack:interp:%s" % g, stall_s=300))
     off = [0, 1, 2, 3, 8, 16] if q else list(range(0, 17))
     arity = sorted(set([60000] + [65532 - o for o in off] + [65532 + o for o in off[1:]] + [65800, 131070]))
     params = sorted(set([60000] + [65531 - o for o in off] + [65531 + o for o in off[1:]] + [66000, 131070]))
